@@ -14,9 +14,11 @@ claims = {
  'C04': 'Kleene tables of AND/OR/XOR/NOT and null propagation of the six relational operators over every tag/nullness/ownership of the operands; while and if (bounded: <= 3 rules) run their block exactly when the condition is a non-null true; the null constant is owned storage',
  'C05': 'partial: every node under contract leaves LVALUE operands unchanged bit-for-bit and content-for-content (string/complex payloads), on normal and exceptional return, and returns a temporary or an untouched operand (IC-own/IC-frame); constants hand out owned storage; copy semantics of assignment/containers pending',
  'C06': 'partial: one-step relations of FORStatement::doit (bounds/step once, null bound, step < 1, direction rule, exact advance decided over the mathematical integers, leave <=> next value past the limit, record released exactly once), WHILEStatement::doit and IFStatement::doit (bounded: <= 3 rules); forall pending',
+ 'C07': 'partial: the catchable set is exactly {user-raised, OUT_OF_RANGE, DIVIDE_BY_ZERO} (RuntimeError::throwable / findThrowable over the table read from the compiled object); raise throws the error its name stands for; BEGINStatement::docatch / doit (bounded: <= 3 when clauses): the first matching clause and only it runs, with the error recorded before and cleared after, unmatched or uncatchable errors propagate unchanged, the execution-level stack is balanced on every way out; Statement::execute stamps the level before doit; Executable::run (bounded) calls onRuntimeError exactly once for whatever is thrown and rethrows it; Context::onRuntimeError (bounded: <= 4 open loops) closes exactly the loops of the interrupted region, each finalised once, and purges temporaries. Whole-program placement combinations, table locks / iterator constraints inside finalizeControl, functor calls and the CLI are not covered',
  'C09': 'partial: at / put / delete on tables, strings and bytes over an abstract container model (size + one ghost element): every out-of-range or null position is an index error that leaves the container unchanged, put keeps the table uniform (element type = table type one level down, for nested tables and tuples too) and its length, delete removes exactly one element, at returns the element with ownership inherited from the table; insert/concat/set@/tuples pending',
  'C10': 'partial: chr() succeeds exactly on 0..255 (OUT_OF_RANGE otherwise, null => null); hash() yields 0 <= h < modulus for every modulus or a BLOC error, its loop reads only buf[0,len) (bounded: buffers <= 6 bytes); at() on strings/bytes yields 0..255; put() rejects codes outside 0..255; the other string builtins and the converters pending; int(str(i)) / num(str(d)) not applicable (libc formatting)',
  'C15': 'partial: the typed accessors bloc_boolean/integer/numeric/literal/tabchar and bloc_value_isnull: succeed exactly on the matching type, NULL data for a null value, bloc_errno set on mismatch, nothing escapes, value unchanged; call sequences and ownership pending',
+ 'C16': 'partial: PluginManager::bannedPlugin / unbanPlugin over the list of granted names (bounded: <= 3 names): banned unless exactly this name was granted, granting adds only this name; ComplexCTORExpression::parse (bounded argument list): not trusted and not granted => ParseError before any node is allocated, any token consumed or any argument compiled, and the question is asked about the module the type id denotes; IMPORTStatement::parse: not trusted => only a module name compiles, a path expression is refused without being compiled; Context::createChildShell copies the trusted flag unchanged. include, clones, the C API grant/revoke entry points and the module loader are not covered',
  'C17': 'partial: the reference-counted handle bloc::Complex (copy, destructor, assignment in both aliasing cases, swap) against a ghost count of destroyObject calls: destroyed exactly when the last handle goes; wrappers in Value/containers pending',
 }
 base = json.load(open('/verif/MANIFEST.json'))
